@@ -121,6 +121,14 @@ impl StateMachine<'_> {
         }
     }
 
+    /// Show the lines of a merge conflict region for which no end marker has been seen.
+    pub fn end_unclosed_merge_conflict(&mut self) -> std::io::Result<()> {
+        if let State::MergeConflict(merge_parents, _) = self.state.clone() {
+            self.paint_buffered_merge_conflict_lines(&merge_parents)?;
+        }
+        Ok(())
+    }
+
     fn store_line(&mut self, commit: MergeConflictCommit, state: State) -> bool {
         use State::*;
         if let HunkMinus(diff_type, _) | HunkZero(diff_type, _) | HunkPlus(diff_type, _) = &state {
